@@ -703,6 +703,16 @@ class BinaryOp(Expr):
         def qbool(x):
             return -1 if x else 0
 
+        def qb_intdiv(a, b):
+            # truncates toward zero
+            q = abs(a) // abs(b)
+            return -q if (a < 0) != (b < 0) else q
+
+        def qb_mod(a, b):
+            # takes the sign of the dividend
+            r = abs(a) % abs(b)
+            return -r if a < 0 else r
+
         def limit(x):
             # a result the expression's type cannot hold is an overflow;
             # it is left to be raised at run time (see Expr.fold)
@@ -726,8 +736,8 @@ class BinaryOp(Expr):
             Operator.SUB: lambda a, b: limit(a - b),
             Operator.MUL: lambda a, b: limit(a * b),
             Operator.DIV: lambda a, b: limit(a / b),
-            Operator.MOD: lambda a, b: limit(a % b),
-            Operator.INTDIV: lambda a, b: limit(a // b),
+            Operator.MOD: lambda a, b: limit(qb_mod(a, b)),
+            Operator.INTDIV: lambda a, b: limit(qb_intdiv(a, b)),
             Operator.EXP: lambda a, b: limit(a ** b),
         }[self.op](left, right)
 
